@@ -73,21 +73,30 @@ func (u *UnitDefinition) FormatLongFloat(amount float64, displayZero bool) strin
 	return formatNumberUnitLong(amount, u, displayZero)
 }
 
-func formatNumberUnitShort[T NumberType](amount T, unit *UnitDefinition, displayZero bool) string {
-	var formatString string
-	switch any(amount).(type) {
-	case int64:
-		formatString = "%d"
+// formatNumber renders the amount without insignificant characters: integers as they are, and floats
+// without the trailing zeros of the fraction (and without the decimal point if no fraction remains).
+func formatNumber[T NumberType](amount T) string {
+	switch v := any(amount).(type) {
 	case float64:
-		formatString = "%f"
+		result := fmt.Sprintf("%f", v)
+		if strings.Contains(result, ".") {
+			result = strings.TrimRight(result, "0")
+			result = strings.TrimSuffix(result, ".")
+		}
+		return result
+	default:
+		return fmt.Sprintf("%d", v)
 	}
+}
+
+func formatNumberUnitShort[T NumberType](amount T, unit *UnitDefinition, displayZero bool) string {
 	switch {
 	case amount == 1 || amount == -1:
-		return strings.TrimRight(fmt.Sprintf(formatString, amount), "0.") + unit.NameShortSingular()
+		return formatNumber(amount) + unit.NameShortSingular()
 	case amount != 0:
-		return strings.TrimRight(fmt.Sprintf(formatString, amount), "0.") + unit.NameShortPlural()
+		return formatNumber(amount) + unit.NameShortPlural()
 	case displayZero:
-		return strings.TrimRight(fmt.Sprintf(formatString, amount), "0.") + unit.NameShortPlural()
+		return formatNumber(amount) + unit.NameShortPlural()
 	default:
 		return ""
 	}
